@@ -167,7 +167,8 @@ def r_hatches(ctx: Ctx, rule: str):
         adders = ctx.distinct_sites(ctx.nodes(acc, lambda n: ctx.is_call_to(n, "add_function_command", "add_property_command")))
         rep.floor(rule, "command adders called by add_class_commands", len(adders), 2)
         for a in adders:
-            ok = any(k.arg is None and isinstance(k.value, ast.Name) and k.value.id == nm for k in a.ast.keywords)
+            call_ = ctx.an.partial_syn.get((id(a.ast), id(a.env)), a.ast)  # (`adder = partial(self.add_function_command, **common)`: the call it stands for)
+            ok = any(k.arg is None and isinstance(k.value, ast.Name) and k.value.id == nm for k in call_.keywords)
             rep.ob(rule, "every command sub-parser is created with the shared stream/width", ok, node=a)
     for nm in ("add_function_command", "add_property_command"):
         f = cp.methods.get(nm)
@@ -256,12 +257,25 @@ def r_listen_loop(ctx: Ctx, rule: str):
         if isinstance(a, ast.Call) and isinstance(a.func, ast.Attribute) and a.func.attr == "encode":
             src = a.func.value
         ok = False
+
+        def has_content(fr, fenv, e_, depth=0) -> bool:
+            """the text contains `<this session's buffer>.getvalue()` - directly, through locals, helper parameters (the text may be
+            handed to a helper that sends it) or the result of a helper that takes the buffer's content"""
+            if any(isinstance(x, ast.Call) and isinstance(x.func, ast.Attribute) and x.func.attr == "getvalue"
+                   and ctx.eff.rebase(ctx.eff.paths(fr).of(x.func.value) or "", fr, fenv) == "self._response_buffer" for x in ast.walk(e_)):
+                return True
+            if depth > 6:
+                return False
+            for x in ast.walk(e_):
+                if isinstance(x, ast.Name) and isinstance(x.ctx, ast.Load) or (isinstance(x, ast.Call) and id(x) in ctx.an.spliced_at):
+                    ls_ = ctx.vals.leaves(fr, fenv, x)
+                    ls_ = [l_ for l_ in ls_ if l_[2] is not x]
+                    if ls_ and all(has_content(f2, e2, leaf, depth + 1) for f2, e2, leaf in ls_):
+                        return True
+            return False
+
         if src is not None:
-            # directly, through a local, or through a helper (spliced into listen) that returns the buffer's content
-            ls = ctx.vals.leaves(w.func, w.env, src)
-            ok = bool(ls) and all(any(isinstance(x, ast.Call) and isinstance(x.func, ast.Attribute) and x.func.attr == "getvalue"
-                                      and ctx.eff.rebase(ctx.eff.paths(fr).of(x.func.value) or "", fr, fenv) == "self._response_buffer" for x in ast.walk(leaf))
-                                  for fr, fenv, leaf in ls)
+            ok = has_content(w.func, w.env, src)
         rep.ob(rule, "the reply sent is the content of this session's response buffer", ok, node=w)
 
 
@@ -842,90 +856,39 @@ def r_reply_forms(ctx: Ctx, rule: str):
             sc = ctx.an.scope(c.func)
             first = ctx.vals.resolve(c.func, c.ast.args[0]) if c.ast.args else None
             is_getter = isinstance(first, ast.Attribute) and first.attr == "fget"
-            # find the awaited expression and where it goes
-            aw = parents.get(id(c.ast))
-            while aw is not None and not isinstance(aw, ast.Await):
-                aw = parents.get(id(aw)) if isinstance(aw, ast.Call) and isinstance(aw.func, ast.Name) and aw.func.id == "cast" else None
-            if aw is None:
-                # `c = return_or_exception(...)` ... `await c`: the await that stands for this call
-                orig = next((k for k, v_ in ctx.an.awaited_via.items() if v_ is c.ast and k not in {id(x) for x in ctx.an.await_syn.values()}), None)
-                aw = next((x for x in sc._own_nodes() if id(x) == orig), None) if orig is not None else None
-            if aw is None:
+            # the await of this call, every write to the response buffer that writes its value (in whatever frame: helpers of the
+            # session and module-level helpers are spliced into f's flow graph), dominance, and the form of what is written
+            aws = ctx.nodes(f, lambda m: m.op == "await" and isinstance(m.ast, ast.Await) and (strip_cast(m.ast.value) is c.ast or ctx.an.awaited_via.get(id(m.ast)) is c.ast))
+            if not aws:
                 rep.ob(rule + "r", "the outcome of the call is awaited and used", False, node=c)
                 continue
-            holder = parents.get(id(aw))
-            written = None  # the expression written to the buffer
-            var = None
-            if isinstance(holder, (ast.Assign, ast.AnnAssign)):
-                tgt = holder.targets[0] if isinstance(holder, ast.Assign) else holder.target
-                if isinstance(tgt, ast.Name):
-                    var = tgt.id
-            else:
-                # used inline: climb to the enclosing write call (or to a helper of the session that receives the value)
-                cur = aw
-                while cur is not None and not (isinstance(cur, ast.Call) and isinstance(cur.func, ast.Attribute) and cur.func.attr == "write"):
-                    nxt = parents.get(id(cur))
-                    if isinstance(nxt, ast.Call) and any(x is cur for x in nxt.args + [k.value for k in nxt.keywords]) and cur is aw:
-                        cal_ = sc.callee(nxt)
-                        if cal_.kind == "pkg" and cal_.targets and all(t.cls is sess for t in cal_.targets):
-                            var = "<awaited>"  # handed straight to a helper: judged below like a value bound to a local
-                            cur = None
-                            break
-                    cur = nxt
-                written = cur
+            aw_asts = {id(m.ast) for m in aws} | {id(c.ast)}
 
-            def is_val(x: ast.AST) -> bool:
-                return x is aw if var == "<awaited>" else (isinstance(x, ast.Name) and x.id == var)
+            def denotes(at: Node, x: ast.AST, aw_asts=aw_asts) -> bool:
+                """x, evaluated at step `at`, is the awaited outcome of this call (directly, through a local, or through parameters of
+                helpers the value was handed to)"""
+                if id(x) in aw_asts or (isinstance(x, ast.Await) and id(strip_cast(x.value)) in aw_asts):
+                    return True
+                if not isinstance(x, ast.Name):
+                    return False
+                ls = ctx.vals.leaves_at(at, x)
+                return bool(ls) and all(id(v) in aw_asts or (isinstance(v, ast.Await) and id(strip_cast(v.value)) in aw_asts) for _f, _e, v in ls)
 
-            if var is not None:
-                writes = [m for m in ctx.nodes(f, lambda m: m.func is c.func and any(e.kind == "write" and e.path == "self._response_buffer" for e in ctx.eff.of_node(m)))
-                          if any(is_val(x) for x in ast.walk(m.ast))]
-                if not writes:
-                    # the value may be handed to a helper of the session that writes the reply
-                    helper_calls = [m for m in ctx.nodes(f, lambda m: m.op == "call" and m.callee is not None and m.callee.kind == "pkg" and all(t.cls is sess for t in m.callee.targets)
-                                                         and any(is_val(x) for x in m.ast.args + [k.value for k in m.ast.keywords]))]
-                    handled = False
-                    for hc in helper_calls:
-                        h = hc.callee.targets[0]
-                        pn = next((pname for pname in h.param_names() if ctx.call_arg(hc.ast, h, pname) is not None and is_val(ctx.call_arg(hc.ast, h, pname))), None)
-                        if pn is None:
-                            continue
-                        hg = ctx.an.cfg(h)
-                        hw = [m for m in ctx.nodes(h, lambda m: any(e.kind == "write" and e.path == "self._response_buffer" for e in ctx.eff.of_node(m)))
-                              if any(isinstance(x, ast.Name) and x.id == pn for x in ast.walk(m.ast))]
-                        cnode = [m for m in g.nodes if m.ast is c.ast and m.op == "call"]
-                        dom_call = bool(cnode) and g.exit not in reach([s2 for s2, lab in cnode[0].succ], lambda a, b, lab: lab[0] in NORMAL_KINDS, avoid={x for x in g.nodes if x.ast is hc.ast and x.op == "call"})
-                        dom_write = bool(hw) and hg.exit not in reach([hg.entry], lambda a, b, lab: lab[0] in NORMAL_KINDS, avoid=set(hw))
-                        rep.ob(rule + "r", "the outcome of the member call is written to the response buffer on every path", dom_call and dom_write, node=c,
-                               detail=f"through helper {h.short}")
-                        if hw and hw[0].ast.args:
-                            form = reply_form(hw[0].ast.args[0], pn, None)
-                            want = "str" if is_getter else "ok-or-str"
-                            ok = form == want or (is_getter and form == "ok-or-str")
-                            rep.ob(rule + "r", f"the reply has the form {'str(result)' if is_getter else 'ok if result is None else str(result)'}", ok, func=h, construct=hw[0],
-                                   detail=f"written: {ast.unparse(hw[0].ast.args[0])[:80]} ({form}): a falsy result that is not None (0, False, [], set()) must still be reported as its str()")
-                        handled = True
-                    if handled:
-                        continue
-                cnode = [m for m in g.nodes if m.ast is c.ast and m.op == "call"]
-                # every normal path from the call to the exit passes such a write
-                ok_dom = bool(writes) and bool(cnode) and g.exit not in reach([s for s, lab in cnode[0].succ], lambda a, b, lab: lab[0] in NORMAL_KINDS, avoid=set(writes))
-                rep.ob(rule + "r", "the outcome of the member call is written to the response buffer on every path", ok_dom, node=c,
-                       detail="" if ok_dom else f"the value bound to `{var}` is dropped (an exception returned by the member would be answered as if it had succeeded)")
-                written = writes[0].ast if writes else None
-            elif written is None:
-                rep.ob(rule + "r", "the outcome of the member call is written to the response buffer on every path", False, node=c,
-                       detail="the awaited value is discarded: an exception returned by the member is answered as if the call had succeeded")
-                continue
-            else:
-                rep.ob(rule + "r", "the outcome of the member call is written to the response buffer on every path",
-                       ctx.eff.paths(f).of(written.func.value) == "self._response_buffer", node=c)
-            if written is not None and written.args:
-                arg = written.args[0]
-                form = reply_form(arg, var, aw, ctx)
+            all_writes = ctx.nodes(f, lambda m: m.op == "call" and isinstance(m.ast, ast.Call) and m.ast.args
+                                   and any(e.kind == "write" and e.path == "self._response_buffer" for e in ctx.eff.of_node(m)))
+            writes = [m for m in all_writes if any(denotes(m, x) for x in ast.walk(m.ast.args[0]))]
+            ok_dom = bool(writes) and all(g.exit not in reach([s_ for s_, lab in a_.succ if lab[0] in NORMAL_KINDS], lambda a, b, lab: lab[0] in NORMAL_KINDS, avoid=set(writes))
+                                          for a_ in aws)
+            rep.ob(rule + "r", "the outcome of the member call is written to the response buffer on every path", ok_dom, node=c,
+                   detail="" if ok_dom else ("the awaited value is discarded: an exception returned by the member is answered as if the call had succeeded" if not writes
+                                             else "on some path the value is dropped (an exception returned by the member would be answered as if it had succeeded)"))
+            for w in ctx.distinct_sites(writes):
+                copies = [m for m in writes if m.ast is w.ast]
+                forms = {reply_form(m.ast.args[0], None, None, ctx, at=m, denotes=denotes) for m in copies}
                 want = "str" if is_getter else "ok-or-str"
-                ok = form == want or (is_getter and form == "ok-or-str")
-                rep.ob(rule + "r", f"the reply has the form {'str(result)' if is_getter else 'ok if result is None else str(result)'}", ok, node=c, detail=f"written: {ast.unparse(arg)[:80]} ({form})")
+                ok = all(form == want or (is_getter and form == "ok-or-str") for form in forms)
+                rep.ob(rule + "r", f"the reply has the form {'str(result)' if is_getter else 'ok if result is None else str(result)'}", ok, node=c,
+                       detail=f"written: {ast.unparse(w.ast.args[0])[:80]} ({sorted(forms)}): a falsy result that is not None (0, False, [], set()) must still be reported as its str()")
     direct = 0
     for fn in [x for x in ctx.prog.all_functions() if x.module.name == SESSION_MOD]:
         for u in ctx.distinct_sites(ctx.nodes(fn, lambda n: n.op == "call" and n.callee is not None and n.callee.kind == "user")):
@@ -934,9 +897,35 @@ def r_reply_forms(ctx: Ctx, rule: str):
     rep.floor(rule + "r", "invocations of pool members (through return_or_exception or direct)", n + direct, 3)
 
 
-def reply_form(arg: ast.AST, var: Optional[str], aw: Optional[ast.AST], ctx: Optional[Ctx] = None) -> str:
+def reply_form(arg: ast.AST, var: Optional[str], aw: Optional[ast.AST], ctx: Optional[Ctx] = None, at: Optional[Node] = None, denotes=None) -> str:
+    """form of the text written for the outcome: "str" | "ok-or-str" | "ok-always" | "other".  The outcome is the local `var` / the
+    expression `aw`, or - with `at` and `denotes` - whatever denotes(at, x) says (values followed across spliced frames)."""
     def is_val(x: ast.AST) -> bool:
+        if denotes is not None and at is not None:
+            return denotes(at, x)
         return (var is not None and isinstance(x, ast.Name) and x.id == var) or (aw is not None and x is aw)
+
+    def flag_value(x: ast.AST) -> Optional[bool]:
+        """a flag parameter of the helper that writes, as this call site passes it (literal argument or literal default)"""
+        neg = False
+        while isinstance(x, ast.UnaryOp) and isinstance(x.op, ast.Not):
+            x, neg = x.operand, not neg
+        if isinstance(x, ast.Constant) and isinstance(x.value, bool):
+            return x.value != neg
+        if ctx is not None and at is not None and isinstance(x, ast.Name):
+            _f, _e, leaf = ctx.vals.trace(at.func, at.env, x)
+            if isinstance(leaf, ast.Constant) and isinstance(leaf.value, bool):
+                return leaf.value != neg
+        return None
+
+    if isinstance(arg, ast.IfExp) and isinstance(arg.test, ast.BoolOp) and isinstance(arg.test.op, ast.And):
+        # `ok if flag and value is None else str(value)`: read with the flag this call site passes
+        vals = [(v, flag_value(v)) for v in arg.test.values]
+        if any(fv is False for _v, fv in vals):
+            return reply_form(arg.orelse, var, aw, ctx, at, denotes)
+        rest = [v for v, fv in vals if fv is not True]
+        if len(rest) == 1:
+            return reply_form(ast.copy_location(ast.IfExp(test=rest[0], body=arg.body, orelse=arg.orelse), arg), var, aw, ctx, at, denotes)
 
     if ctx is not None and isinstance(arg, ast.Call) and id(arg) in ctx.an.spliced_at and len(arg.args) + len(arg.keywords) == 1:
         # self._format_output(value): a helper that only computes the text - judged by its single `return <expr>` over its parameter
@@ -1369,7 +1358,7 @@ def r_handshake(ctx: Ctx, rule: str):
         rep.ob(rule, "the commands are added to this session's parser", ctx.path_at(c, c.ast.func.value) == "self._parser", node=c)
     for w in ctx.distinct_sites(steps["write"]):
         a = w.ast.args[0] if w.ast.args else None
-        txt = ast.unparse(a).replace(" ", "") if a is not None else ""
+        txt = ctx.vals.canon_at(w.func, w.env, a).replace(" ", "") if a is not None else ""  # (through locals and helper parameters)
         ok = txt in ("str(self._pool).encode()+b'\\n'", "(str(self._pool)+'\\n').encode()", "f'{self._pool}\\n'.encode()")
         rep.ob(rule, "the reply to the handshake is the pool's name and a newline", ok, node=w, detail=txt)
     V = ctx.vals
